@@ -252,3 +252,81 @@ end
 
 
 end SlipVerif.Json
+
+namespace SlipVerif.Json
+open J
+
+/-! ### plain Go data into a bag -/
+
+theorem simpleObject_ne_tail (g : G) : ∀ v, simpleObject g ≠ .tail v := by
+  intro v
+  cases g with
+  | bool b => cases b <;> simp [simpleObject]
+  | uint w n => by_cases h : w = 8 <;> simp [simpleObject, h]
+  | _ => simp [simpleObject]
+
+theorem isPair_simpleObject (g : G) : isPair (simpleObject g) = false := by
+  cases g with
+  | bool b => cases b <;> simp [simpleObject, isPair]
+  | uint w n => by_cases h : w = 8 <;> simp [simpleObject, isPair, h]
+  | slice xs =>
+    match xs with
+    | [] => simp [simpleObject, simpleObjectL, isPair]
+    | [_] => simp [simpleObject, simpleObjectL, isPair]
+    | [_, b] =>
+      simp only [simpleObject, simpleObjectL]
+      cases hb : simpleObject b <;> simp [isPair]
+      exact simpleObject_ne_tail b _ hb
+    | _ :: _ :: _ :: _ => simp [simpleObject, simpleObjectL, isPair]
+  | map kvs =>
+    match kvs with
+    | [] => simp [simpleObject, simpleObjectM, isPair]
+    | [_] => simp [simpleObject, simpleObjectM, isPair]
+    | [_, (_, _)] => simp [simpleObject, simpleObjectM, isPair]
+    | _ :: _ :: _ :: _ => simp [simpleObject, simpleObjectM, isPair]
+  | _ => simp [simpleObject, isPair]
+
+theorem keys_gToJM (kvs : List (String × G)) : keys (gToJM kvs) = kvs.map (·.1) := by
+  induction kvs with
+  | nil => rfl
+  | cons kv rest ih => obtain ⟨k, v⟩ := kv; simp [gToJM, keys] at ih ⊢; exact ih
+
+mutual
+theorem ofLisp_simpleObject : (g : G) → GBag g = true → ofLisp (simpleObject g) = .ok (gToJ g)
+  | .nil, _ => by simp [simpleObject, ofLisp, gToJ]
+  | .bool true, _ => by simp [simpleObject, ofLisp, gToJ]
+  | .bool false, h => by simp [GBag] at h
+  | .int w v, _ => by simp [simpleObject, ofLisp, gToJ]
+  | .uint w v, _ => by by_cases h8 : w = 8 <;> simp [simpleObject, ofLisp, gToJ, h8]
+  | .f32 t, _ => by simp [simpleObject, ofLisp, gToJ]
+  | .f64 t, _ => by simp [simpleObject, ofLisp, gToJ]
+  | .str s, _ => by simp [simpleObject, ofLisp, gToJ]
+  | .time t, _ => by simp [simpleObject, ofLisp, gToJ]
+  | .slice [], h => by simp [GBag] at h
+  | .slice (x :: xs), h => by
+      simp only [GBag, Bool.and_eq_true] at h
+      have hL : ofLispL (simpleObjectL (x :: xs)) = .ok (gToJL (x :: xs)) := ofLispL_simpleObjectL (x :: xs) (by simp [GBagL, h.1, h.2])
+      simp only [simpleObjectL] at hL
+      simp [simpleObject, simpleObjectL, ofLisp, isPair_simpleObject x, hL, gToJ, bind, Except.bind]
+  | .map [], h => by simp [GBag] at h
+  | .map ((k, v) :: kvs), h => by
+      simp only [GBag, Bool.and_eq_true] at h
+      have hA : ofLispA (simpleObjectM ((k, v) :: kvs)) = .ok (gToJM ((k, v) :: kvs)) :=
+        ofLispA_simpleObjectM ((k, v) :: kvs) (by simp [GBagM, h.1.1, h.1.2])
+      simp only [simpleObjectM] at hA
+      have hm : mkMembers (gToJM ((k, v) :: kvs)) = gToJM ((k, v) :: kvs) :=
+        mkMembers_of_distinct _ (by rw [keys_gToJM]; exact h.2)
+      simp [simpleObject, simpleObjectM, ofLisp, isPair, hA, hm, gToJ, bind, Except.bind]
+theorem ofLispL_simpleObjectL : (xs : List G) → GBagL xs = true → ofLispL (simpleObjectL xs) = .ok (gToJL xs)
+  | [], _ => by simp [simpleObjectL, ofLispL, gToJL]
+  | x :: xs, h => by
+      simp only [GBagL, Bool.and_eq_true] at h
+      simp [simpleObjectL, ofLispL, gToJL, ofLisp_simpleObject x h.1, ofLispL_simpleObjectL xs h.2, bind, Except.bind]
+theorem ofLispA_simpleObjectM : (kvs : List (String × G)) → GBagM kvs = true → ofLispA (simpleObjectM kvs) = .ok (gToJM kvs)
+  | [], _ => by simp [simpleObjectM, ofLispA, gToJM]
+  | (k, v) :: kvs, h => by
+      simp only [GBagM, Bool.and_eq_true] at h
+      simp [simpleObjectM, ofLispA, gToJM, ofLisp_simpleObject v h.1, ofLispA_simpleObjectM kvs h.2, bind, Except.bind]
+end
+
+end SlipVerif.Json
